@@ -25,7 +25,7 @@ __asan_default_options (void)
 {
     return "exitcode=77:detect_leaks=0:allocator_may_return_null=1:"
 	   "handle_segv=1:abort_on_error=0:detect_stack_use_after_return=0:"
-	   "max_allocation_size_mb=2048";
+	   "max_allocation_size_mb=6144";
 }
 __attribute__ ((used, visibility ("default"))) const char *
 __ubsan_default_options (void)
